@@ -2,6 +2,7 @@
 Scheduling language: listing the sites a strategy can be aimed at
 """
 
+import inspect
 from collections.abc import Callable
 
 from ..function import Function
@@ -63,6 +64,17 @@ _SITES: dict[Callable, Callable] = {
 A strategy absent from this table takes no `where`: it applies to the whole
 program or to nothing.
 """
+
+
+def _listing_kwargs(strategy: Callable, lister: Callable, kwargs: dict) -> dict:
+    """`kwargs` as the listing takes them.  A listing is given the arguments
+    the rewrite will get; a parameter of the strategy that its listing does not
+    take (`times`, `early_check`, the names of temporaries) shapes the rewrite,
+    not where it applies, and is left out.  Anything else is passed on, so a
+    keyword neither of them knows is still an error."""
+    taken = inspect.signature(lister).parameters
+    own = inspect.signature(strategy).parameters
+    return { k: v for k, v in kwargs.items() if k in taken or k not in own }
 
 
 def sites(
@@ -144,7 +156,7 @@ def sites(
     if lister is None:
         name = getattr(strategy, '__name__', strategy)
         raise ValueError(f'`{name}` takes no `where`, so it has no sites')
-    return lister(func.ast, func.rebase(within), **kwargs)
+    return lister(func.ast, func.rebase(within), **_listing_kwargs(strategy, lister, kwargs))
 
 
 def refusals(
@@ -206,4 +218,4 @@ def refusals(
     lister = _REFUSALS.get(strategy)
     if lister is None:
         return []
-    return lister(func.ast, func.rebase(within), **kwargs)
+    return lister(func.ast, func.rebase(within), **_listing_kwargs(strategy, lister, kwargs))
